@@ -448,6 +448,8 @@ public:
 	*/
 	Array& append(const Array& b)
 	{
+		if (b._a == _a) // appending an array to itself: b would change (or move) while it is read
+			return append(Array(b.clone()));
 		int n=length();
 		resize(length()+b.length());
 		for (int i=0; i<b.length(); i++)
